@@ -138,6 +138,59 @@ fn run_child(world: &World, work: &Path, ops: &[COp], crash_at: i64) -> Result<(
 	Ok((code, labels))
 }
 
+/// Fork a child that only opens `work` (Chain::init, i.e. the startup recovery) and either records the
+/// crash points it passes (crash_at == 0) or dies at the crash_at-th one.
+fn run_child_init(world: &World, work: &Path, crash_at: i64) -> Result<(i32, Vec<String>), String> {
+	let mut spins = 0;
+	while thread_count() > 1 && spins < 500 {
+		std::thread::sleep(std::time::Duration::from_millis(2));
+		spins += 1;
+	}
+	let labels_file = work.join("verif-labels.txt");
+	let pid = unsafe { libc::fork() };
+	if pid < 0 {
+		return Err("fork failed".into());
+	}
+	if pid == 0 {
+		let code = std::panic::catch_unwind(std::panic::AssertUnwindSafe(|| {
+			if crash_at == 0 {
+				verif::start_recording();
+			} else {
+				verif::set_crash_at(crash_at);
+			}
+			let node = Node::open_at(work.to_path_buf(), world.genesis.clone(), false);
+			if crash_at == 0 {
+				let labels = verif::take_labels();
+				let _ = std::fs::write(&labels_file, labels.join("\n"));
+			}
+			verif::set_crash_at(-1);
+			match node {
+				Ok(n) => {
+					drop(n);
+					0
+				}
+				Err(_) => 3,
+			}
+		}))
+		.unwrap_or(4);
+		unsafe { libc::_exit(code) }
+	}
+	let mut status: libc::c_int = 0;
+	let r = unsafe { libc::waitpid(pid, &mut status, 0) };
+	if r < 0 {
+		return Err("waitpid failed".into());
+	}
+	let code = if libc::WIFEXITED(status) { libc::WEXITSTATUS(status) } else { -(libc::WTERMSIG(status) as i32) };
+	let labels = if crash_at == 0 {
+		let l = std::fs::read_to_string(&labels_file).map(|s| s.lines().map(|x| x.to_string()).collect()).unwrap_or_default();
+		let _ = std::fs::remove_file(&labels_file);
+		l
+	} else {
+		vec![]
+	};
+	Ok((code, labels))
+}
+
 fn build_base(world: &World, sc: &Scenario, tag: &str) -> Result<PathBuf, String> {
 	let dir = fresh_dir(tag);
 	let mut node = Node::open_at(dir.clone(), world.genesis.clone(), false).map_err(|e| format!("base init: {:?}", e))?;
@@ -313,8 +366,23 @@ fn check_survivor(
 
 /// Enumerate all crash points of one scenario.
 pub fn run_scenario(world: &World, sc: &Scenario, tag: &str, res: &mut CaseResult, only_point: Option<usize>, stride: usize) -> Result<Vec<Violation>, String> {
+	run_scenario2(world, sc, tag, res, only_point, stride, 0, None)
+}
+
+/// `double_budget`: for how many first-level crash points whose survivor needs real recovery work
+/// the startup recovery itself is killed at every one of *its* crash points (crash during recovery).
+pub fn run_scenario2(world: &World, sc: &Scenario, tag: &str, res: &mut CaseResult, only_point: Option<usize>, stride: usize, double_budget: usize, only_second: Option<usize>) -> Result<Vec<Violation>, String> {
 	let base = build_base(world, sc, &format!("{}-base", tag))?;
 	let expect = expected_final(world, sc, &base, &format!("{}-twin", tag))?;
+	// crash points of a startup on a cleanly closed directory: the baseline a recovery is compared with
+	let clean_init: Vec<String> = {
+		let work = fresh_dir(&format!("{}-cleaninit", tag));
+		copy_dir(&base, &work).map_err(|e| format!("{}", e))?;
+		let (_, l) = run_child_init(world, &work, 0)?;
+		let _ = std::fs::remove_dir_all(&work);
+		l
+	};
+	let mut double_left = double_budget;
 	// counting run
 	let work = fresh_dir(&format!("{}-count", tag));
 	copy_dir(&base, &work).map_err(|e| format!("{}", e))?;
@@ -359,8 +427,73 @@ pub fn run_scenario(world: &World, sc: &Scenario, tag: &str, res: &mut CaseResul
 		res.steps += 1;
 		res.fault(&format!("kill@{}", label));
 		*res.extra.entry("crash_points_enumerated".into()).or_insert(json!(0)) = json!(res.extra.get("crash_points_enumerated").and_then(|v| v.as_u64()).unwrap_or(0) + 1);
-		let v = check_survivor(world, sc, &work, label, n, &expect, res);
+		// keep a copy of what the killed process left behind for the crash-during-recovery pass
+		let snap = if double_left > 0 || only_second.is_some() {
+			let d = fresh_dir(&format!("{}-p{}snap", tag, n));
+			copy_dir(&work, &d).map_err(|e| format!("{}", e))?;
+			Some(d)
+		} else {
+			None
+		};
+		let v = if only_second.is_some() { None } else { check_survivor(world, sc, &work, label, n, &expect, res) };
 		let _ = std::fs::remove_dir_all(&work);
+		if let (None, Some(snap)) = (&v, &snap) {
+			// second level: kill the recovery of this survivor at each of its own crash points
+			let cnt = fresh_dir(&format!("{}-p{}icount", tag, n));
+			copy_dir(snap, &cnt).map_err(|e| format!("{}", e))?;
+			let (_, init_labels) = run_child_init(world, &cnt, 0)?;
+			let _ = std::fs::remove_dir_all(&cnt);
+			if init_labels != clean_init || only_second.is_some() {
+				double_left = double_left.saturating_sub(1);
+				res.probe("recovery_with_work_found");
+				// long recoveries (a walk back over many blocks) are sampled evenly
+				let cap = if double_budget > 100 { 160 } else { 24 };
+				let stride2 = (init_labels.len() + cap - 1) / cap;
+				for (j, l2) in init_labels.iter().enumerate() {
+					let m = j + 1;
+					if let Some(o) = only_second {
+						if o != m {
+							continue;
+						}
+					} else if stride2 > 1 && m % stride2 != 0 && m != init_labels.len() {
+						continue;
+					}
+					let w2 = fresh_dir(&format!("{}-p{}i{}", tag, n, m));
+					copy_dir(snap, &w2).map_err(|e| format!("{}", e))?;
+					let (code, _) = run_child_init(world, &w2, m as i64)?;
+					if code != verif::CRASH_EXIT_CODE {
+						let _ = std::fs::remove_dir_all(&w2);
+						continue;
+					}
+					res.runs += 1;
+					res.steps += 1;
+					res.fault(&format!("kill-during-recovery@{}", l2));
+					res.probe("killed_during_recovery");
+					let label2 = format!("{}+init:{}", label, l2);
+					let v2 = check_survivor(world, sc, &w2, &label2, n, &expect, res);
+					let _ = std::fs::remove_dir_all(&w2);
+					res.run_digests.push((crate::rng::fnv64(format!("{}:{}:{}:{}:{}:{}", world.seed, sc.kind, sc.age, n, m, label2).as_bytes()), true));
+					if let Some(mut v2) = v2 {
+						if seen_keys.insert(v2.key.clone()) {
+							v2.replay = json!({
+								"engine": "crashsim",
+								"property": "C09",
+								"scenario_kind": sc.kind,
+								"scenario_age": sc.age,
+								"crash_point": n,
+								"second_crash_point": m,
+								"label": label2,
+								"ops": serde_json::to_value(&sc.ops).unwrap(),
+							});
+							out.push(v2);
+						}
+					}
+				}
+			}
+		}
+		if let Some(snap) = &snap {
+			let _ = std::fs::remove_dir_all(snap);
+		}
 		res.run_digests.push((crate::rng::fnv64(format!("{}:{}:{}:{}:{}", world.seed, sc.kind, sc.age, n, label).as_bytes()), true));
 		if let Some(mut v) = v {
 			if seen_keys.insert(v.key.clone()) {
@@ -557,7 +690,8 @@ pub fn case(tier: &str, seed: u64, case: u64) -> CaseResult {
 	res.extra.insert("scenarios".into(), json!(cw.scenarios.len()));
 	let stride = if tier == "thorough" { 1 } else { 1 };
 	for (i, sc) in cw.scenarios.clone().iter().enumerate() {
-		match run_scenario(&cw.world, sc, &format!("C09-c{}s{}", case, i), &mut res, None, stride) {
+		let double_budget = if tier == "thorough" { 1000 } else { 3 };
+		match run_scenario2(&cw.world, sc, &format!("C09-c{}s{}", case, i), &mut res, None, stride, double_budget, None) {
 			Ok(vs) => {
 				for mut v in vs {
 					if let Value::Object(ref mut m) = v.replay {
@@ -596,7 +730,8 @@ pub fn replay(rp: &Value) -> Result<Option<Violation>, String> {
 	let mut cw = build(seed, long)?;
 	let sc = cw.scenarios.get(si).ok_or("scenario index out of range")?.clone();
 	let mut res = CaseResult::new(0, seed);
-	let vs = run_scenario(&cw.world, &sc, "C09-replay", &mut res, Some(point), 1)?;
+	let second = rp["second_crash_point"].as_u64().map(|x| x as usize);
+	let vs = run_scenario2(&cw.world, &sc, "C09-replay", &mut res, Some(point), 1, 0, second)?;
 	cw.world.cleanup();
 	Ok(vs.into_iter().next())
 }
